@@ -1,0 +1,103 @@
+//go:build verif
+
+// Contracts for package ws (comment-only; see /verif/DESIGN.md).
+// This file contains no declarations: with and without the `verif` tag the compiled code is identical.
+package ws
+
+//@ ghost field Conn.$connClosed bool
+//@ ghost field Chan.$chclosed bool
+//@ ghost field Reader.$errReports int
+//@ ghost field Reader.$delivered int
+
+// ---- library contracts (assumed): gorilla/websocket, time, bytes ----
+//@ lib (conn *websocket.Conn).Close()
+//@   ensures conn.$connClosed
+//@   modifies conn.$connClosed
+//@ lib (conn *websocket.Conn).ReadMessage()
+//@ lib (conn *websocket.Conn).WriteMessage(messageType, data)
+//@ lib (conn *websocket.Conn).SetReadDeadline(t)
+//@ lib (conn *websocket.Conn).SetWriteDeadline(t)
+//@ lib (conn *websocket.Conn).SetPongHandler(h)
+//@ lib websocket.FormatCloseMessage(code, text)
+//@ lib time.Now()
+//@ lib (t time.Time).Add(d)
+//@ lib time.NewTicker(d)
+//@   ensures result != nil
+//@ lib (t *time.Ticker).Stop()
+//@ lib bytes.Equal(a, b)
+
+// ---- the SHIP layer as seen from the websocket layer ----
+//@ iface api.WebsocketDataReaderInterface.HandleIncomingWebsocketMessage(msg)
+//@   ensures this.$delivered == old(this.$delivered) + 1
+//@   modifies this.$delivered
+//@ iface api.WebsocketDataReaderInterface.ReportConnectionError(err)
+//@   ensures this.$errReports == old(this.$errReports) + 1
+//@   modifies this.$errReports
+
+//@ immutable WebsocketConnection.conn, WebsocketConnection.remoteSki
+// the hub constructs websocket connections only from established sockets (assumed; NewWebsocketConnection itself accepts nil)
+//@ typeinv (w *WebsocketConnection) w.conn != nil
+
+// C13-T2: once the closed flag is set, the close channel is closed and the socket is closed
+//@ macro WSINV(w) := (w.connectionClosed ==> w.closeChannel.$chclosed && (w.conn == nil || w.conn.$connClosed))
+//@ objinv (w *WebsocketConnection) [C13] T2-released: @WSINV(w)
+//@ objinv (w *WebsocketConnection) O1-once: (w.shutdownOnce.$done ==> w.connectionClosed) && (!w.shutdownOnce.$done ==> !w.closeChannel.$chclosed)
+//@ objinv (w *WebsocketConnection) O2-init: w.closeChannel != nil && w.dataProcessing != nil && w.shipWriteChannel != nil && w.shipWriteChannel != w.closeChannel
+//@ macro WSOK(w) := (@WSINV(w) && (w.shutdownOnce.$done ==> w.connectionClosed) && (!w.shutdownOnce.$done ==> !w.closeChannel.$chclosed) && w.closeChannel != nil && w.dataProcessing != nil && w.shipWriteChannel != nil && w.shipWriteChannel != w.closeChannel)
+//@ macro KEEPW(w) := w.shipWriteChannel.$chclosed == old(w.shipWriteChannel.$chclosed)
+//@ modset wsst(w) := w.connectionClosed, w.connectionClosedError, w.shutdownOnce.$done, w.closeChannel.$chclosed, w.conn.$connClosed, w.dataProcessing.$errReports, w.dataProcessing.$delivered
+
+//@ func (w *WebsocketConnection).setConnClosedError(err) inline
+//@ func (w *WebsocketConnection).connClosedError() inline
+//@ func (w *WebsocketConnection).isConnClosed() inline
+
+//@ func (w *WebsocketConnection).close() entry [C13,C08]
+//@   requires @WSOK(w)
+//@   ensures [C13] T1-closed: w.connectionClosed
+//@   ensures w.connectionClosedError == old(w.connectionClosedError)
+//@   ensures w.dataProcessing.$errReports == old(w.dataProcessing.$errReports)
+//@   ensures @WSOK(w) && @KEEPW(w)
+//@   modifies @wsst(w)
+//@ func (w *WebsocketConnection).closeWithError(err, reason) entry [C13,C08]
+//@   requires err != nil && @WSOK(w)
+//@   ensures @WSOK(w) && @KEEPW(w)
+//@   ensures [C13] T4-closed: w.connectionClosed && w.connectionClosedError == err
+//@   ensures [C13] T4-reported: w.dataProcessing.$errReports == old(w.dataProcessing.$errReports) + 1
+//@   modifies @wsst(w)
+//@ func (w *WebsocketConnection).CloseDataConnection(closeCode, reason) entry [C13,C08]
+//@   ensures [C13] T1-closed: w.connectionClosed
+//@   ensures [C13] T1-silent: w.dataProcessing.$errReports == old(w.dataProcessing.$errReports)
+//@   modifies @wsst(w)
+//@ func (w *WebsocketConnection).IsDataConnectionClosed() entry [C13,C12]
+//@   ensures result.0 == w.connectionClosed
+//@   ensures [C13] T6-error: result.0 ==> result.1 != nil
+//@ func (w *WebsocketConnection).WriteMessageToWebsocketConnection(message) entry [C12,C08]
+//@   ensures [C12] W1-closed: old(w.connectionClosed) ==> result != nil
+//@   modifies w.dataProcessing.$errReports
+//@ func (w *WebsocketConnection).writeMessage(messageType, data) entry [C13,C08]
+//@   requires @WSOK(w)
+//@   ensures @WSOK(w) && @KEEPW(w)
+//@   modifies @wsst(w)
+//@ func (w *WebsocketConnection).writeMessageWithoutErrorHandling(messageType, data) [C08]
+//@ func (w *WebsocketConnection).handlePing() entry [C08]
+//@   requires @WSOK(w)
+//@   ensures @WSOK(w) && @KEEPW(w)
+//@   modifies @wsst(w)
+//@ func (w *WebsocketConnection).checkWebsocketMessage(msgType, data) [C08]
+//@   ensures result == nil <==> (msgType == websocket.BinaryMessage && len(data) >= 2)
+//@ func (w *WebsocketConnection).readWebsocketMessage() [C08]
+//@   ensures result.1 == nil ==> len(result.0) >= 2
+//@ func (w *WebsocketConnection).textFromMessage(msg) [C08]
+//@ func (w *WebsocketConnection).readShipPump() entry [C13,C08]
+//@   atcall HandleIncomingWebsocketMessage [C13] T3-open: !w.connectionClosed
+//@   atcall ReportConnectionError [C13] T3-report: w.connectionClosed && w.connectionClosedError != nil && @WSINV(w) && w.dataProcessing.$errReports == old(w.dataProcessing.$errReports)
+//@   ensures [C13] T3-once: w.dataProcessing.$errReports <= old(w.dataProcessing.$errReports) + 1
+//@   modifies @wsst(w)
+//@ loop (w *WebsocketConnection).readShipPump #0
+//@   invariant w.dataProcessing.$errReports == old(w.dataProcessing.$errReports)
+//@   invariant @WSOK(w)
+//@ func (w *WebsocketConnection).writeShipPump() [C08,C12]
+//@   requires @WSOK(w) && !w.shipWriteChannel.$chclosed
+//@   modifies @wsst(w), w.shipWriteChannel.$chclosed
+//@ loop (w *WebsocketConnection).writeShipPump #0
+//@   invariant @WSOK(w) && !w.shipWriteChannel.$chclosed
